@@ -256,12 +256,20 @@ def main():
             print('DISAGREE', hblib.describe_case(c['line'])[:900], '\n    model:', hblib.decode_obs(mo)[:500], '\n    impl :', hblib.decode_obs(io)[:500])
     # classify
     def known_class(c, mo, io, what):
+        # a listed finding suppresses a failure only when the crate still shows the RECORDED behaviour, i.e. the
+        # behaviour the (faithful) model reproduces: a case on which model and crate differ is never a known finding,
+        # even if its input lies in a listed class — except for a class whose very content is nondeterminism (F12)
+        agree = hblib.obs_equal(mo, io, c['line'])
         for kf in known.get('findings', []):
             if kf['property'] != prop:
                 continue
             pred = getattr(fam, 'known_' + kf['class'], None)
             c['_what'] = what
-            if pred and pred(c, mo, io):
+            if not pred:
+                continue
+            if not getattr(pred, 'nondeterministic', False) and (what == 'disagreement' or not agree):
+                continue
+            if pred(c, mo, io):
                 return kf
         return None
 
